@@ -654,7 +654,7 @@ def addr_words(rng, nets, blanks_ok):
         ver = net.version
         top = (1 << (32 if ver == 4 else 128)) - 1
         lo, hi = int(net.network_address), int(net.broadcast_address)
-        n = rng.choice([lo, hi, lo - 1, hi + 1, lo + 1, hi - 1, rng.randint(lo, hi), rng.randint(0, top)])
+        n = rng.choice([lo, lo, hi, lo - 1, hi + 1, lo + 1, hi - 1, rng.randint(lo, hi), rng.randint(lo, hi), rng.randint(0, top)])
         n = max(0, min(top, n))
         a = v4(n) if ver == 4 else v6(n)
         if ver == 6 and rng.random() < 0.15:
@@ -666,7 +666,7 @@ def addr_words(rng, nets, blanks_ok):
         if r < 0.4:
             w = a
         elif r < 0.85:
-            ln = rng.choice([net.prefixlen, net.prefixlen, max(0, net.prefixlen - 1), min(maxlen, net.prefixlen + 1), maxlen, maxlen - 1, 0,
+            ln = rng.choice([net.prefixlen, net.prefixlen, net.prefixlen, max(0, net.prefixlen - 1), min(maxlen, net.prefixlen + 1), maxlen, maxlen - 1, 0,
                              rng.randint(0, maxlen)])
             w = f"{a}/{ln}"
         elif ver == 4:
@@ -742,7 +742,10 @@ def gen_ipgrep(rng):
         subnets, flags = ",".join(items), ""
         nets_for_words = nets
     delim = rng.choice([None, None, r"\s+", ",", r"[,\s]+", ";"])
-    flags += rng.choice(IP_FLAG_SETS)
+    fs = rng.choice(IP_FLAG_SETS)
+    if "l" in fs and ("c" in fs or "n" in fs) and rng.random() < 0.85:
+        fs = fs.replace("c", "").replace("n", "")      # --line refuses --show-cidr / --show-networks
+    flags += fs
     while True:
         text = ip_text(rng, nets_for_words, delim)
         # C11 finding F32 (IPv6Obj refuses a text longer than 43 characters before strip()) is not C18's business
@@ -850,29 +853,52 @@ def gen_config(rng, junos=False):
     return "\n".join(out) + rng.choice(["\n", "", "\n\n"])
 
 
+def _indent(ln):
+    return len(ln) - len(ln.lstrip())
+
+
+def _chains(config):
+    """ancestor chains (outermost first) of every line, by indentation"""
+    out, stack = [], []
+    for ln in config.splitlines():
+        if not ln.strip() or ln.strip() in "{}" or ln.lstrip().startswith("!"):
+            continue
+        while stack and _indent(stack[-1]) >= _indent(ln):
+            stack.pop()
+        stack.append(ln)
+        out.append(list(stack))
+    return out
+
+
+def _term_of(rng, ln):
+    ln = ln.strip().rstrip(";{ ").strip()
+    ws = ln.split() or ["x"]
+    r = rng.random()
+    if r < 0.35:
+        return ws[0]
+    if r < 0.55:
+        return "^\\s*" + re.escape(ws[0])
+    if r < 0.7:
+        return re.escape(ln).replace("\\ ", " ")
+    if r < 0.8:
+        return re.escape(ws[-1]) + "$"
+    if r < 0.9:
+        return " ".join(ws[:2])
+    return rng.choice(["", "\\S", "."])
+
+
 def gen_terms(rng, configs, n):
-    lines = [ln for c in configs for ln in c.splitlines() if ln.strip() and ln.strip() not in "{}"]
-    terms = []
-    for depth in range(n):
-        r = rng.random()
-        cand = [ln for ln in lines if (len(ln) - len(ln.lstrip())) in (depth, 4 * depth)] or lines or ["x"]
-        ln = rng.choice(cand).strip().rstrip(";{ ").strip()
-        ws = ln.split()
-        if r < 0.35:
-            t = ws[0]
-        elif r < 0.55:
-            t = "^\\s*" + ws[0]
-        elif r < 0.7:
-            t = re.escape(ln).replace("\\ ", " ")
-        elif r < 0.8:
-            t = ws[-1] + "$"
-        elif r < 0.88:
-            t = rng.choice(["nomatch", "Ethernet\\d$", "shut", "^ ", "\\d+"])
-        elif r < 0.93:
-            t = ""
-        else:
-            t = " ".join(ws[:2])
-        terms.append(t)
+    chains = [c for cfg in configs for c in _chains(cfg)]
+    lines = [c[-1] for c in chains] or ["x"]
+    good = [c for c in chains if len(c) >= n]
+    if good and rng.random() < 0.75:
+        c = rng.choice(good)
+        start = rng.randrange(len(c) - n + 1) if rng.random() < 0.2 else 0
+        terms = [_term_of(rng, ln) for ln in c[start:start + n]]
+    else:
+        terms = [_term_of(rng, rng.choice(lines)) for _ in range(n)]
+    if rng.random() < 0.12:
+        terms[rng.randrange(n)] = rng.choice(["nomatch", "Ethernet\\d$", "shut", "^ ", "\\d+"])
     return terms
 
 
@@ -888,9 +914,11 @@ def gen_find(rng):
     if terms[0].startswith("-"):
         terms[0] = "." + terms[0][1:]
     if cmd == "branch":
-        output = rng.choice([None, "raw_text", "original", "original", "json"])
+        output = rng.choice([None, "raw_text", "raw_text", "original", "original", "original"])
     else:
-        output = rng.choice([None, None, "raw_text", "json"])
+        output = rng.choice([None, None, "raw_text"])
+    if rng.random() < 0.06:
+        output = "json"
     return {"kind": "find", "cmd": cmd, "configs": configs, "terms": terms, "delimiter": delimiter, "syntax": syntax, "output": output}
 
 
